@@ -50,10 +50,13 @@ structure WInvX (x : Option Nat) (w : World) : Prop where
   pingAlarmOwned : ∀ t p, Pending w t (.pingAlarm p) → ∃ pr, w.protos.get? p = some pr ∧ pr.pingAlarm = some t
   pingLoopOwned : ∀ t p, Pending w t (.pingLoop p) → ∃ pr l, w.protos.get? p = some pr ∧ pr.pingTimer = some l ∧ l.call = some t
   /- handshake (C04) -/
+  /-- a connecting protocol waits for a handshake whose Deferred has not fired and whose timeout is running
+      (unless the timeout has already failed it: `dfd = none`) -/
   connecting : ∀ p pr, w.protos.get? p = some pr → pr.state = .connecting →
-      ∃ cr c, pr.connReq = some cr ∧ w.connReqs.get? cr = some c
+      ∃ cr c, pr.connReq = some cr ∧ w.connReqs.get? cr = some c ∧
+        ∀ d, c.dfd = some d → d ∉ w.fired ∧ Pending w c.alarm (.connack cr)
   connReq : ∀ cr c d, w.connReqs.get? cr = some c → c.dfd = some d → d ∉ w.fired →
-      d < w.nextDfd ∧ Pending w c.alarm (.connack cr) ∧ ∀ e ∈ w.ents, (w.req e.rid).dfd ≠ some d
+      d < w.nextDfd ∧ ∀ e ∈ w.ents, (w.req e.rid).dfd ≠ some d
   connReqInj : ∀ cr cr' c c' d, w.connReqs.get? cr = some c → w.connReqs.get? cr' = some c' →
       c.dfd = some d → c'.dfd = some d → cr = cr'
   connReqFresh : ∀ cr c d, w.connReqs.get? cr = some c → c.dfd = some d → d < w.nextDfd
@@ -61,9 +64,6 @@ structure WInvX (x : Option Nat) (w : World) : Prop where
       ∃ c d, w.connReqs.get? cr = some c ∧ c.dfd = some d ∧ d ∉ w.fired ∧ c.alarm = t
   /-- C13/C18: a pending retry timer belongs to a protocol whose loss has not been reported -/
   retryLive : ∀ t p rid, Pending w t (.retry p rid) → ∃ pr, w.protos.get? p = some pr ∧ pr.lost = false
-  /-- the Deferred of the handshake a connecting protocol is waiting for has not fired -/
-  connectingFresh : ∀ p pr cr c d, w.protos.get? p = some pr → pr.state = .connecting → pr.connReq = some cr →
-      w.connReqs.get? cr = some c → c.dfd = some d → d ∉ w.fired
   /-- SUBSCRIBE/UNSUBSCRIBE requests exist only with a running retry timer (they never survive a connection) -/
   subArmed : ∀ e ∈ w.ents, (e.box = .sub ∨ e.box = .unsub) → (w.req e.rid).alarm = none →
       ∃ p pr, x = some p ∧ w.protos.get? p = some pr ∧ pr.addr = e.addr
